@@ -198,9 +198,6 @@ def c10 (op : String) (j : Json) : Option (R Json) :=
   | "load" => some do
       let h ← h5fileOf (← fld j "file")
       pure (resJ tfldJ (h5Load h))
-  | "legacy_doc" => some do
-      let l ← legacyOf (← fld j "legacy")
-      pure (resJ tfldJ (legacyLoadDoc l))
   | "roundtrip" => some do
       let f ← tfldOf (← fld j "field")
       pure (resJ tfldJ (h5Load (h5Save f)))
